@@ -165,20 +165,21 @@ CLAIMS = {
 
 # clauses added in round 6 (appended to the claim text of the property)
 ROUND6 = {
-    "C01": " Round 6: every index simple_batch returns comes from a selection primitive (no argsort shortcut), nothing blanks offered candidates after the mapping scatter, quotients by conditionally accumulated counts are zero-guarded (a genuine ZeroDivisionError of ValueOfInformationEER was repaired), full_like(prototype, nan) needs a float dtype, pick buffers / translated picks / fallback re-marks are indexed consistently.",
+    "C01": " Round 6: every index simple_batch returns comes from a selection primitive (no argsort shortcut), nothing blanks offered candidates after the mapping scatter, quotients by conditionally accumulated counts are zero-guarded (a genuine ZeroDivisionError of ValueOfInformationEER was repaired), full_like(prototype, nan) needs a float dtype, pick buffers / translated picks / fallback re-marks are indexed consistently; the returned indices are never a row-wise optimum of several rows taken at once (round 7).",
     "C02": " Round 6: NaN stores into a returned row inside a selection loop are indexed by the picks only (not by label-initialised arrays); a batch is never the row-wise optimum of several rows at once unless the rows come from a sequentially selecting helper; the array handed to simple_batch must-depends on the candidates.",
     "C04": " Round 6: the strategy's manager is a private object (deep copy / new instance, also through factory methods); no increment under a constructor-flag test; no bounded-width dtype in the accounting code; ONE query_by_utility consultation per chunk (known finding: the density-based strategies consult per candidate against the committed state - reproduced, 40 labels in a chunk of 50 at budget 0.1).",
-    "C06": " Round 6: a pool query reads no fitted attribute it has not computed in the same call (known finding: ProbCover's cache).",
+    "C06": " Round 6: a pool query reads no fitted attribute it has not computed in the same call (known finding: ProbCover's cache); round 7: the sampling method looked up by name on the caller's ensemble is given the strategy's generator (genuine defect of QueryByCommittee / BALD repaired).",
     "C07": " Round 6: the forced-maximum store for the wrapped strategy's pick is unconditional (shared with C20).",
-    "C08": " Round 6: check_indices canonicalises index candidates (sorted unique); _conditional_expect evaluates every row of X at its own position; the scatter target is a float NaN array by construction on the index path.",
-    "C09": " Round 6: every return of ExtLabelEncoder.transform is the array filled from the exact class lookup; arrays typed by the sentinel (np.full(shape, missing_label)) are fillers only.",
+    "C08": " Round 6: check_indices canonicalises index candidates (sorted unique); _conditional_expect evaluates every row of X at its own position; the scatter target is a float NaN array by construction on the index path; round 7: a comparison of the candidate count never selects between two computations of the result, and models refitted per candidate use statistics of the labeled rows only.",
+    "C09": " Round 6: every return of ExtLabelEncoder.transform is the array filled from the exact class lookup; arrays typed by the sentinel (np.full(shape, missing_label)) are fillers only; round 7: the sentinel is never matched by `in` / set.discard / np.isin (blind for NaN only).",
     "C10": " Round 6: a query leaves no memo that update adopts (shared with C03); one budget-manager consultation per chunk (shared with C04, same known finding).",
-    "C11": " Round 6: every return of fit / partial_fit of the wrapper classifiers comes after self._fit; check_cost_matrix returns the matrix it validated; SlidingWindowClassifier does not store the label attributes it forwards.",
-    "C12": " Round 6: the length of the labeled mask is no operand of fit arithmetic; values computed from statistics over all rows stay tainted through calls and subscript stores on self; the caller's fit kwargs are not processed together with the unmasked X.",
+    "C11": " Round 6: every return of fit / partial_fit of the wrapper classifiers comes after self._fit; check_cost_matrix returns the matrix it validated; SlidingWindowClassifier does not store the label attributes it forwards; round 7: predict of every concrete classifier is the cost-sensitive base implementation, reads the cost matrix, or purely delegates.",
+    "C12": " Round 6: the length of the labeled mask is no operand of fit arithmetic; values computed from statistics over all rows stay tainted through calls and subscript stores on self; the caller's fit kwargs are not processed together with the unmasked X; round 7: value validations of unmasked arrays inside fit are decisions taken from unlabeled rows.",
+    "C13": " Round 7: stream strategies and budget managers own their history (update stores copies of candidate rows, never views of the caller's arrays; a genuine defect of the density-based strategies was repaired); lists filled by appends hand their array elements to unpacking in the alias analysis.",
     "C15": " Round 6: fit of the wrapped regressors is history-free (shared with C13); no raise in their fit path is guarded by a predicate that is true on the empty labeled selection.",
     "C16": " Round 6: only fit writes encoder state (transform / inverse_transform leave self alone); every return of transform went through the class lookup.",
     "C17": " Round 6: majority_vote hands compute_vote_vectors the same row selection of labels and weights; the winner is taken with an exact tie mask (shared with C18).",
-    "C19": " Round 6: the emulated partial_fit grows the training triple by dtype-promoting concatenation; the triple is never written element-wise; the precomputed and the plain arm of ParzenWindowClassifier.predict_freq agree on everything but K.",
+    "C19": " Round 6: the emulated partial_fit grows the training triple by dtype-promoting concatenation; the triple is never written element-wise; the precomputed and the plain arm of ParzenWindowClassifier.predict_freq agree on everything but K; round 7: prediction indices are never canonicalised, and partial_fit updates the model on every path to a return.",
     "C20": " Round 6: no bounded-width dtype in the wrappers; max_candidates is converted to a count under a type test only.",
 }
 
